@@ -64,10 +64,14 @@ impl Shape {
     }
 
     pub(crate) fn strides(&self) -> Strides {
-        let mut strides = vec![1; self.len()];
+        let mut strides = vec![1usize; self.len()];
 
         for (i, v) in self.iter().enumerate().skip(1).rev() {
-            strides.iter_mut().take(i).for_each(|stride| *stride *= v)
+            // Saturating: an absurd shape (with a zero-length axis, so no elements) must not overflow
+            strides
+                .iter_mut()
+                .take(i)
+                .for_each(|stride| *stride = stride.saturating_mul(*v))
         }
 
         Strides(strides)
